@@ -1102,3 +1102,169 @@ Theorem inherit_terminates_any_order : forall ords all ts, wf_tags ts ->
   (forall k n, In n (keys ts) -> In n (ords k)) ->
   exists ts' res', inherit_loop_ord (List.length ts) ords all ts [] = Some (ts', res') /\ same_graph ts ts' /\ keys ts' = keys ts.
 Proof. intros. apply inherit_loop_ord_terminates; auto. apply unresolved_le. Qed.
+
+(* ---------------------------------------------------------------- converters only on attachable tags *)
+(* attachConverterToTag refuses tags that match on data or reference tags; manager.New attaches the saved
+   converters through it.  So an acknowledged attachment survives a restart only if no tag with
+   converters is [complex]: that is an invariant of the API (with fixes/C11-4). *)
+Definition conv_ok (ts : tags_t) : Prop :=
+  forall k t, get ts k = Some t -> nonempty (t_convs t) = true -> complex t = false.
+
+Definition erase (t : tag) : tag := with_unc t [].
+Definition upto_unc (ts ts' : tags_t) : Prop :=
+  forall k, option_map erase (get ts k) = option_map erase (get ts' k).
+
+Lemma upto_unc_refl : forall ts, upto_unc ts ts.
+Proof. intros ts k. reflexivity. Qed.
+Lemma upto_unc_trans : forall a b c, upto_unc a b -> upto_unc b c -> upto_unc a c.
+Proof. intros a b c H1 H2 k. rewrite H1. apply H2. Qed.
+
+Lemma upto_unc_set : forall ts n t u, get ts n = Some t -> upto_unc ts (set ts n (with_unc t u)).
+Proof.
+  intros ts n t u G k. rewrite get_set. seq_cases n k; auto. subst. rewrite G. reflexivity.
+Qed.
+
+Lemma visit_upto_unc : forall all ts res n ts' res',
+  inherit_visit all (ts, res) n = (ts', res') -> upto_unc ts ts'.
+Proof.
+  intros all ts res n ts' res' H. unfold inherit_visit in H.
+  destruct (get ts n) as [ti|] eqn:G; [|injection H as <- <-; apply upto_unc_refl].
+  destruct (mem_s n res); [injection H as <- <-; apply upto_unc_refl|].
+  destruct (negb (forallb (fun r => mem_s r res) (refs ti))); [injection H as <- <-; apply upto_unc_refl|].
+  destruct (negb (nonempty (t_main ti)) && negb (nonempty (t_sub ti))); [injection H as <- <-; apply upto_unc_refl|].
+  match type of H with (if ?c then _ else _) = _ => destruct c end; injection H as <- <-; apply upto_unc_set; auto.
+Qed.
+
+Lemma fold_visit_upto_unc : forall all l ts res ts' res',
+  fold_left (inherit_visit all) l (ts, res) = (ts', res') -> upto_unc ts ts'.
+Proof.
+  intros all. induction l as [|x l IH]; intros ts res ts' res' H; cbn [fold_left] in H.
+  - injection H as <- <-. apply upto_unc_refl.
+  - destruct (inherit_visit all (ts, res) x) as [ts1 res1] eqn:V.
+    eapply upto_unc_trans; [eapply visit_upto_unc; eauto|eapply IH; eauto].
+Qed.
+
+Lemma inherit_loop_upto_unc : forall fuel all ts res ts' res',
+  inherit_loop fuel all ts res = Some (ts', res') -> upto_unc ts ts'.
+Proof.
+  induction fuel as [|f IH]; intros all ts res ts' res' H; simpl in H.
+  - destruct (all_resolved ts res); [|discriminate]. injection H as <- <-. apply upto_unc_refl.
+  - destruct (all_resolved ts res); [injection H as <- <-; apply upto_unc_refl|].
+    destruct (fold_left (inherit_visit all) (keys ts) (ts, res)) as [ts1 res1] eqn:F.
+    eapply upto_unc_trans; [eapply fold_visit_upto_unc; eauto|eapply IH; eauto].
+Qed.
+
+Lemma conv_ok_upto_unc : forall ts ts', upto_unc ts ts' -> conv_ok ts -> conv_ok ts'.
+Proof.
+  intros ts ts' H Hc k t' G Hn. specialize (H k). rewrite G in H. cbn [option_map] in H.
+  destruct (get ts k) as [t|] eqn:G0; cbn [option_map] in H; [|discriminate].
+  assert (He : erase t = erase t') by congruence.
+  assert (t_convs t = t_convs t') as E1 by (apply (f_equal t_convs) in He; exact He).
+  assert (complex t = complex t') as E2 by (apply (f_equal complex) in He; exact He).
+  rewrite <- E2. apply (Hc k t G0). rewrite E1. auto.
+Qed.
+
+Lemma conv_ok_after_inherit : forall st ts k r st',
+  conv_ok (tags st) -> conv_ok ts -> (forall ts', conv_ok ts' -> conv_ok (k ts')) ->
+  after_inherit st ts k = (r, st') -> conv_ok (tags st').
+Proof.
+  intros st ts k r st' H0 H1 Hk H. unfold after_inherit in H.
+  destruct (inherit_uncertainty (all_streams st) ts) as [[ts' res']|] eqn:E.
+  - injection H as _ <-. simpl. apply Hk. eapply conv_ok_upto_unc; [|exact H1].
+    unfold inherit_uncertainty in E. eapply inherit_loop_upto_unc; eauto.
+  - injection H as _ <-. auto.
+Qed.
+
+Lemma conv_ok_map_refby : forall (f : name -> list name -> list name) (p : name -> bool) ts,
+  conv_ok ts -> conv_ok (map_tags (fun k t => if p k then with_refby t (f k (t_refby t)) else t) ts).
+Proof.
+  intros f p ts H k t G Hn. rewrite get_map_tags in G. destruct (get ts k) as [t0|] eqn:G0; simpl in G; [|discriminate].
+  injection G as <-. destruct (p k).
+  - simpl in *. apply (H k t0 G0). exact Hn.
+  - apply (H k t0 G0). exact Hn.
+Qed.
+
+Lemma conv_ok_set : forall ts n t, conv_ok ts -> (nonempty (t_convs t) = true -> complex t = false) -> conv_ok (set ts n t).
+Proof.
+  intros ts n t H Ht k t' G Hn. rewrite get_set in G. seq_cases n k.
+  - injection G as <-. auto.
+  - eapply H; eauto.
+Qed.
+
+Lemma conv_ok_del : forall ts n, conv_ok ts -> conv_ok (del ts n).
+Proof.
+  intros ts n H k t G Hn. rewrite get_del in G. seq_cases n k; [discriminate|]. eapply H; eauto.
+Qed.
+
+Opaque dfs dfs_fuel.
+Theorem step_conv_ok : forall parse st c, conv_ok (tags st) -> conv_ok (tags (snd (step parse st c))).
+Proof.
+  intros parse st c H. destruct c as [nm color qs|nm|nm op]; simpl.
+  - unfold add_tag. destruct (parse_tag_name nm) as [[typ sub] is_mark].
+    repeat match goal with |- context [if ?c then _ else _] => destruct c; simpl; auto
+                      | |- context [match parse qs with _ => _ end] => destruct (parse qs); simpl; auto end.
+    all: apply (conv_ok_map_refby (fun _ l => add_name nm l)); apply conv_ok_set; auto; simpl; discriminate.
+  - unfold del_tag. destruct (get (tags st) nm) as [tg|]; simpl; auto.
+    repeat match goal with |- context [if ?c then _ else _] => destruct c; simpl; auto end.
+    apply (conv_ok_map_refby (fun _ l => rem_name nm l)). apply conv_ok_del. auto.
+  - destruct op; simpl.
+    + unfold update_color. destruct (get (tags st) nm) as [tg|] eqn:G; simpl; auto.
+      destruct (String.eqb c ""); simpl; auto. apply conv_ok_set; auto. simpl. apply (H nm tg G).
+    + unfold update_query. destruct (parse qs) as [|p]; simpl; auto.
+      repeat match goal with |- context [if ?c then (Err _, _) else _] => destruct c; simpl; auto end.
+      destruct (get (tags st) nm) as [tg|] eqn:G; simpl; auto.
+      match goal with |- context [match dfs ?a ?b ?c ?d ?e with _ => _ end] => destruct (dfs a b c d e) end; simpl; auto.
+      match goal with |- context [nonempty (t_convs tg) && complex ?t] => set (nt := t) end.
+      destruct (nonempty (t_convs tg) && complex nt) eqn:Ec; simpl; auto.
+      destruct (negb (forallb (has (tags st)) (refs tg ++ refs nt))); simpl; auto.
+      match goal with |- conv_ok (tags (snd ?x)) => destruct x as [r st'] eqn:Ea end. simpl.
+      refine (conv_ok_after_inherit st _ _ r st' H _ _ Ea); [|auto].
+      apply conv_ok_set.
+      * unfold retarget. intros k t Gk Hn. rewrite get_map_tags in Gk.
+        destruct (get (tags st) k) as [t0|] eqn:G0; simpl in Gk; [|discriminate]. injection Gk as <-.
+        destruct (mem_s k (refs tg) && negb (mem_s k (refs nt))); [apply (H k t0 G0); exact Hn|].
+        destruct (mem_s k (refs nt) && negb (mem_s k (refs tg))); apply (H k t0 G0); exact Hn.
+      * simpl. intros Hn. rewrite Hn in Ec. simpl in Ec. exact Ec.
+    + unfold update_name. destruct (get (tags st) nm) as [tg|] eqn:G; simpl; auto.
+      destruct (String.eqb nn ""); simpl; auto.
+      destruct (parse_tag_name nm) as [[otyp osub] om]. destruct (parse_tag_name nn) as [[ntyp nsub] nmk].
+      repeat match goal with |- context [if ?c then _ else _] => destruct c; simpl; auto end.
+      apply (conv_ok_map_refby (fun _ l => add_name nn (rem_name nm l))). apply conv_ok_set; [apply conv_ok_del; auto|].
+      apply (H nm tg G).
+    + unfold update_convs. destruct (get (tags st) nm) as [tg|] eqn:G; simpl; auto.
+      set (fresh := filter (fun c => negb (mem_s c (t_convs tg))) l).
+      destruct (negb (forallb (fun c => mem_s c (convs st)) fresh)); simpl; auto.
+      destruct (nonempty fresh && complex tg) eqn:Ef; simpl; auto.
+      apply conv_ok_set; auto. simpl. intros Hn.
+      (* either something new is attached (then the tag is attachable) or only old converters stay *)
+      destruct (nonempty fresh) eqn:En; [simpl in Ef; exact Ef|].
+      destruct (t_convs tg) as [|c0 cs] eqn:Et.
+      * exfalso. subst fresh. destruct l as [|x l]; simpl in *; discriminate.
+      * apply (H nm tg G). rewrite Et. reflexivity.
+    + unfold update_marks. destruct (negb (nonempty l)); simpl.
+      { destruct (get (tags st) nm); simpl; auto. }
+      destruct (negb (String.prefix "mark/" nm || String.prefix "generated/" nm)); simpl; auto.
+      destruct (get (tags st) nm) as [tg|] eqn:G; simpl; auto.
+      match goal with |- context [if ?c then (Err _, _) else _] => destruct c; simpl; auto end.
+      match goal with |- conv_ok (tags (snd ?x)) => destruct x as [r st'] eqn:Ea end. simpl.
+      refine (conv_ok_after_inherit st _ _ r st' H _ _ Ea).
+      * apply conv_ok_set; auto. simpl. apply (H nm tg G).
+      * intros ts' H'. destruct (get ts' nm) as [t|] eqn:G'; auto. apply conv_ok_set; auto. simpl. apply (H' nm t G').
+    + unfold update_marks. destruct (negb (nonempty l)); simpl.
+      { destruct (get (tags st) nm); simpl; auto. }
+      destruct (negb (String.prefix "mark/" nm || String.prefix "generated/" nm)); simpl; auto.
+      destruct (get (tags st) nm) as [tg|] eqn:G; simpl; auto.
+      match goal with |- context [if ?c then (Err _, _) else _] => destruct c; simpl; auto end.
+      match goal with |- conv_ok (tags (snd ?x)) => destruct x as [r st'] eqn:Ea end. simpl.
+      refine (conv_ok_after_inherit st _ _ r st' H _ _ Ea).
+      * apply conv_ok_set; auto. simpl. apply (H nm tg G).
+      * intros ts' H'. destruct (get ts' nm) as [t|] eqn:G'; auto. apply conv_ok_set; auto. simpl. apply (H' nm t G').
+Qed.
+
+Transparent dfs dfs_fuel.
+
+Theorem history_conv_ok : forall parse cv next cs, conv_ok (tags (run parse (init_state cv next) cs)).
+Proof.
+  intros parse cv next cs. unfold run. rewrite <- fold_left_rev_right.
+  induction (rev cs) as [|c r IH]; simpl; [intros k t G; discriminate|]. apply step_conv_ok. auto.
+Qed.
